@@ -6,6 +6,11 @@ From Coq Require Import List String Ascii ZArith Bool Lia.
 From LC Require Import Core.Residue Core.MiniPy Model.Parser Proofs.Parser Gen.GMiniPy.
 Import ListNotations.
 
+Local Notation exec := (MiniPy.exec noprim 0).
+Local Notation exec_list := (MiniPy.exec_list noprim 0).
+Local Notation run_loop := (MiniPy.run_loop noprim 0).
+Local Notation eval := (MiniPy.eval noprim).
+
 Ltac all_ascii c := destruct c as [[] [] [] [] [] [] [] []].
 
 (* ---------- SequenceFileParser.__validSeq ---------- *)
